@@ -37,6 +37,8 @@ def rgba(c):
         if len(c) == 4 and isinstance(c[3], float):
             return tuple(c[:3]) + (int(round(c[3] * 255)),)      # alpha given as a fraction
         return tuple(c) if len(c) == 4 else tuple(c) + (255,)
+    if isinstance(c, str) and c.startswith('#') and len(c) == 9 and c not in RGBA:
+        return tuple(int(c[i:i + 2], 16) for i in (1, 3, 5, 7))
     return RGBA[c]
 
 
@@ -202,6 +204,28 @@ def r8(fx):
             except render.Bad as ex:
                 why = str(ex)
             yield ob(f'PAM dark={dark!r} light={light!r}', not why, fn, got=why or f'{want_h}, the symbol', want=f'{want_h}, the symbol')
+    # colours with an alpha channel: shown as they are (alpha included) or refused with ValueError - nothing else
+    for dark, light in (((255, 0, 0, 128), None), ('#00000080', None), ((255, 0, 0, 128), '#fff'), ('#00000080', '#fff'), ('black', '#ffffff80'),
+                        ('red', (0, 255, 0, 64)), ((255, 0, 0, 128), (0, 255, 0, 64))):
+        try:
+            m, rec, rs, _ = _run(fx, it, 'write_pam', size, scale, border, kw={'dark': dark, 'light': light})
+            want = render.picture(m, size, scale, border)
+            hdr, w, h, d, mx, rows = render.decode_pam(rec.data())
+
+            def shown(t, d=d, mx=mx):
+                t = tuple(v * 255 // mx for v in t)
+                return {1: lambda: (t[0],) * 3 + (255,), 2: lambda: (t[0],) * 3 + (t[1],), 3: lambda: t + (255,), 4: lambda: t}[d]()
+            gotp = [[shown(t) for t in r_] for r_ in rows]
+            gotp = [[(0, 0, 0, 0) if p_[3] == 0 else p_ for p_ in r_] for r_ in gotp]
+            wantp = [[rgba(dark) if v else rgba(light) for v in r_] for r_ in want]
+            wantp = [[(0, 0, 0, 0) if p_[3] == 0 else p_ for p_ in r_] for r_ in wantp]
+            why = render.first_diff(gotp, wantp)
+        except PyRaise as ex:
+            why = '' if ex.name == 'ValueError' else f'raises {ex.name}'
+        except render.Bad as ex:
+            why = str(ex)
+        yield ob(f'PAM with alpha: dark={dark!r} light={light!r}', not why, fn, got=why or 'shown with its alpha, or refused with ValueError',
+                 want='shown with its alpha, or refused with ValueError')
     fn = fx.fn('writers', 'write_ppm')
     for kw in ({}, {'dark': 'red', 'light': 'yellow'}, {'finder_dark': 'blue', 'data_light': '#eee', 'quiet_zone': 'aliceblue'}, {'dark': (0, 0, 139), 'timing_dark': (10, 20, 30)}) + CROSSED:
         for size, scale, border in (((21, 21), 1, None), ((11, 11), 2.7, 1)):
